@@ -644,6 +644,9 @@ class CopyToParent(Contract):
         ctx.path.assume(~taken_by.none_var())
         ge.maybe_method = lambda I, a, kw: (I.event("lookup", uid=a[0]), PList([None if free else taken_by]))[1]
         tws.attrs["get_entity"] = ge
+        # the name tables of the target (another way to ask who holds an identifier): consistent with the lookup
+        for table in ("list_entities_name", "list_objects_name", "list_groups_name", "list_data_name"):
+            tws.attrs[table] = PDict({} if free else {ent.attrs["uid"]: "someone else"})
         new = Opaque("new-entity", cls=cls)
         ce = Opaque("target.create_entity")
         ce.maybe_method = lambda I, a, kw: (I.event("create_entity", cls=a[0] if a else None, kw=dict(kw)), new)[1]
